@@ -544,6 +544,21 @@ func runC16(c *core.Ctx, res *core.Result) {
 		res.Violate("read_only_flag_flipped", "stopping the replication manager switched the replica's read-only flag off", feat)
 		return
 	}
+	// ... and the node information must stay truthful: the node still refuses every client write
+	if g := get(rm); !g.ro || g.role != "replica" || g.primary != paddr {
+		res.Violate("node_info_mismatch", fmt.Sprintf("after the replica's replication manager was stopped the node still refuses client writes with a read-only error, but reports role=%s primary=%q read_only=%v", g.role, g.primary, g.ro), map[string]string{"phase": "after Manager.Stop"})
+		return
+	}
+	{
+		ctx, cancel := ctxT(10 * time.Second)
+		resp, err := env.Client.GetNodeInfo(ctx, &pb.GetNodeInfoRequest{})
+		cancel()
+		if err != nil || !resp.ReadOnly || resp.NodeRole != pb.GetNodeInfoResponse_REPLICA {
+			res.Violate("node_info_mismatch", fmt.Sprintf("after the replica's replication manager was stopped the GetNodeInfo RPC returned %v (err %v) while client writes are still refused as read-only", resp, err), map[string]string{"phase": "after Manager.Stop"})
+			return
+		}
+	}
+	res.Count("node_info_checks_after_stop", 1)
 	var names []string
 	for n := range refused {
 		names = append(names, n)
